@@ -139,6 +139,12 @@ Theorem c15_csv_text_roundtrip : forall rows,
 Proof. exact csv_roundtrip. Qed.
 Print Assumptions c15_csv_text_roundtrip.
 
+(* hence the file determines the table: two different well-shaped tables never give the same text *)
+Theorem c15_csv_text_injective : forall r1 r2,
+  well_shaped false r1 = true -> well_shaped false r2 = true -> csv_text r1 = csv_text r2 -> r1 = r2.
+Proof. exact csv_text_injective. Qed.
+Print Assumptions c15_csv_text_injective.
+
 (* The comment lines written before the header ('#' + body + line feed; the bodies hold the name of
    the JSON file, json.dumps of the hierarchy, the version line: no line feed / carriage return)
    are skipped by a reader told comment='#' and the table comes back -- provided no UNQUOTED field
